@@ -32,6 +32,7 @@ TLC against Order_Trace.tla: accepted iff it equals the model's EnumSorted
 prediction ("... all enumerate them in sorted order").
 """
 import json
+import math
 import os
 import random
 import re
@@ -68,6 +69,32 @@ MIXED = {
     "dateint": [("3", "3"), ("100", "100"), ("date('20240101')", "20240101000000"), ("'fig'", "fig"),
                 ("'apple'", "apple"), ("'kiwi'", "kiwi"), ("'lemon'", "lemon"), ("'mango'", "mango")],
 }
+
+# pools of members that are pairwise different but RENDER ALIKE (OrderOps!IsAlike): the order of their texts
+# ties, so a sort by the texts alone leaves them in host-set order.  `elem` writes member number w (its word is
+# KEYW[w - 1]); the members are created in ascending w in the list F, then put into S / M / L in construction
+# order, so neither creation numbers nor contents depend on the construction order.  `idof` shows which member
+# one has in hand.  Rank of member w in the model: ALIKE_BASE + w (plain members of a mixed pool: w).
+ALIKE_BASE = 55          # OrderOps!AlikeBase
+ALIKE = {
+    # anonymous functions: all print <#lambda>; different functions are never equal
+    "lambda": {"elem": lambda w: f"fn(z) '{w}'", "idof": "x(0)", "pre": ""},
+    # objects that differ only in a hidden member: all print <*a=1*>
+    "hidden": {"elem": lambda w: f"<*a = 1, _h = '{w}'*>", "idof": "x->_h", "pre": ""},
+    # instances of one class whose _str_ prints the same for all
+    "proto": {"elem": lambda w: f"<*_proto_ = C, w = '{w}'*>", "idof": "x->w",
+              "pre": "def C = <*_str_ = fn(self) 'pt'*>;\n"},
+    # sets / maps holding such members
+    "nestset": {"elem": lambda w: f"<<fn(z) '{w}'>>", "idof": "list(x)[0](0)", "pre": ""},
+    "nestmap": {"elem": lambda w: f"<<<'k' => <*_h = '{w}'*>>>>", "idof": "x['k']->_h", "pre": ""},
+    # strings and anonymous functions in one set (a string's text sorts before <#lambda>)
+    "lambdamix": {"elem": lambda w: f"fn(z) '{w}'", "idof": "if type(x) == 'func' then x(0) else x", "pre": "",
+                  "mixed": True},
+    # streams: all print <!input-stream>; reading consumes them, so one template only
+    "stream": {"elem": lambda w: f"IO->str_input('{w}')", "idof": "IO->read_all(x)", "pre": "require IO;\n",
+               "single": True},
+}
+assert ALIKE_BASE + 8 < 100
 
 
 # ---------------------------------------------------------------- templates
@@ -302,6 +329,45 @@ def templates():
             "for k in keys t do println([k]); end;", None, pool=p))
         a(T(p + "-sorted", "println(sorted(list(S)));", None, pool=p))
         a(T(p + "-set-plus", "println(S + <<'zz'>>); println(S - <<'fig'>>);", None, pool=p))
+    # ---- members that render alike (anonymous functions, objects differing in hidden members, ...): the same
+    # enumeration paths, the member identified through idof()
+    for p, spec in ALIKE.items():
+        if spec.get("single"):
+            a(T(p + "-lcompr-set", "println([idof(x) for x in S]);", "compr.set", "compr.set", pool=p))
+            continue
+        a(T(p + "-for-set", "for x in S do println(idof(x)); end;", "for.set", "for.set", pool=p))
+        a(T(p + "-lcompr-set", "println([idof(x) for x in S]);", "compr.set", "compr.set", pool=p))
+        a(T(p + "-list-of-set", "println([idof(x) for x in list(S)]);", "aslist.set", "aslist.set", pool=p))
+        a(T(p + "-spread-list-set", "println([idof(x) for x in [...S]]);", "spread.list.set", "spread.list.set", pool=p))
+        a(T(p + "-spread-call-set", "println([idof(x) for x in f(...S)]);", "spread.call.set", "spread.call.set", pool=p))
+        a(T(p + "-destr-def-set", "def [a, b, c] = S; println([idof(a), idof(b), idof(c)]);", "destr.def.set",
+            "destr.def.set", pool=p))
+        a(T(p + "-destr-assign-set", "def a = 0; def b = 0; def c = 0; [a, b, c] = S; println([idof(a), idof(b), idof(c)]);",
+            "destr.assign.set", "destr.assign.set", pool=p))
+        a(T(p + "-destr-for-set-of-sets", "for [a, b, c] in [S] do println([idof(a), idof(b), idof(c)]); end;",
+            "destr.for.list", "destr.for.list", pool=p))
+        a(T(p + "-for-map-keys", "for k in keys M do println(idof(k)); end;", "for.map.keys", "for.map", pool=p))
+        a(T(p + "-for-map-values", "for v in values M do println(v); end;", "for.map.values", "for.map", pool=p))
+        a(T(p + "-lcompr-map-keys", "println([idof(k) for k in keys M]);", "compr.map.keys", "compr.map.keys", pool=p))
+        a(T(p + "-lcompr-map-values", "println([v for v in values M]);", "compr.map.values", "compr.map.values", pool=p))
+        a(T(p + "-lcompr-map-entries", "println([[idof(e[0]), e[1]] for e in entries M]);", "compr.map.entries",
+            "compr.map.entries", pool=p))
+        a(T(p + "-spread-list-map", "println([idof(k) for k in [...M]]);", "spread.list.map", "spread.list.map", pool=p))
+        a(T(p + "-set-of-list", "println([idof(x) for x in set(L)]);", "compr.set", pool=p))
+        a(T(p + "-sorted-list-of-set", "println([idof(x) for x in sorted(list(S))]);", "aslist.set+sort", pool=p))
+        a(T(p + "-spread-set-again", "def t = set([...S]); println([idof(x) for x in [...t]]);",
+            "spread.list.set+build+spread", pool=p))
+        a(T(p + "-set-ops", "println([idof(x) for x in S + <<F[0]>>]); println([idof(x) for x in S - <<F[0]>>]); "
+            "println([idof(x) for x in [F[0]] + S]);", None, pool=p))
+        a(T(p + "-natives", "println([idof(x) for x in List->reverse(S)]); println(idof(List->first(S))); "
+            "println(idof(min(list(S)))); println(idof(max(list(S)))); println([[e[0], idof(e[1])] for e in enumerate(S)]); "
+            "println([idof(x) for x in List->filter(S, fn(y) TRUE)]);", None, pool=p))
+        a(T(p + "-random-choice", "Random->set_seed(5); println([idof(Random->choice(S)) for i in range(6)]);", None, pool=p))
+    # two members only (the smallest case)
+    a(T("lambda-two-lcompr-set", "println([idof(x) for x in S]);", "compr.set", "compr.set", pool="lambda", n=2))
+    a(T("hidden-two-for-set", "for x in S do println(idof(x)); end;", "for.set", "for.set", pool="hidden", n=2))
+    a(T("hidden-two-destr-def-set", "def [a, b] = S; println([idof(a), idof(b)]);", "destr.def.set.all", "destr.def.set",
+        pool="hidden", n=2))
     ids = [t.tid for t in ts]
     assert len(ids) == len(set(ids)), [i for i in ids if ids.count(i) > 1]
     return ts
@@ -332,6 +398,20 @@ class Batch:
             lines.append("def L = [" + ", ".join(f"'{KEYW[r - 1]}'" for r in order) + "];")
             lines.append("def P = [" + ", ".join(f"['{KEYW[r - 1]}', '{VALW[val_of(r) - 101]}']" for r in order) + "];")
             lines.append("def J = '{" + ", ".join(f'"{KEYW[r - 1]}": "{VALW[val_of(r) - 101]}"' for r in order) + "}';")
+        elif self.pool in ALIKE:
+            spec = ALIKE[self.pool]
+            ranks = sorted(self.elems)                       # creation order = rank order, whatever `order` is
+            at = {r: i for i, r in enumerate(ranks)}
+            word = lambda r: KEYW[(r - ALIKE_BASE if r > ALIKE_BASE else r) - 1]  # noqa: E731
+            src = lambda r: spec["elem"](word(r)) if r > ALIKE_BASE else f"'{word(r)}'"  # noqa: E731
+            if spec["pre"]:
+                lines.append(spec["pre"].rstrip("\n"))
+            lines.append("def F = [" + ", ".join(src(r) for r in ranks) + "];")
+            lines.append(f"def idof(x) {spec['idof']};")
+            lines.append("def S = <<" + ", ".join(f"F[{at[r]}]" for r in order) + ">>;")
+            if not spec.get("single"):
+                lines.append("def M = <<<" + ", ".join(f"F[{at[r]}] => '{VALW[val_of(r) - 101]}'" for r in order) + ">>>;")
+                lines.append("def L = [" + ", ".join(f"F[{at[r]}]" for r in order) + "];")
         else:
             pool = MIXED[self.pool]
             lines.append("def S = <<" + ", ".join(pool[r][0] for r in order) + ">>;")
@@ -376,10 +456,17 @@ def mixed_ranks(pool):
     return res
 
 
+def alike_tokens(elems):
+    tokens = {KEYW[(r - ALIKE_BASE if r > ALIKE_BASE else r) - 1]: r for r in elems}
+    tokens.update({VALW[val_of(r) - 101]: val_of(r) for r in elems})
+    return tokens
+
+
 def orders_of(base, rng, norders):
     orders = [("asc", sorted(base)), ("desc", sorted(base, reverse=True))]
     seen = {tuple(o) for _, o in orders}
     k = 0
+    norders = min(norders, math.factorial(len(base)))
     while len(orders) < norders:
         o = list(base)
         rng.shuffle(o)
@@ -397,6 +484,13 @@ def make_batch(bid, ts, pool, rng, norders, n=None):
         tokens = {KEYW[r - 1]: r for r in elems}
         tokens.update({VALW[val_of(r) - 101]: val_of(r) for r in elems})
         return Batch(bid, ts, pool, elems, orders_of(elems, rng, norders), tokens, True)
+    if pool in ALIKE:
+        n = n or rng.choice([3, 4, 5, 6])
+        words = sorted(rng.sample(range(1, 9), n))
+        nplain = rng.randint(1, n - 2) if ALIKE[pool].get("mixed") else 0
+        plain = set(rng.sample(words, nplain))
+        elems = sorted(w if w in plain else ALIKE_BASE + w for w in words)
+        return Batch(bid, ts, pool, elems, orders_of(elems, rng, norders), alike_tokens(elems), True)
     pl = MIXED[pool]
     ranks = mixed_ranks(pool)
     base = list(range(len(pl)))                       # indices into the pool
@@ -423,6 +517,12 @@ def make_batches(ts, rng, norders, nstr, reps):
             for p in MIXED:
                 g = [t for t in ts if t.pool == p]
                 out.append(make_batch(f"r{rep}m-{p}", g, p, rng, norders))
+        for pi, p in enumerate(ALIKE):
+            g = [t for t in ts if t.pool == p and not t.n]
+            out.append(make_batch(f"r{rep}a-{p}", g, p, rng, norders, n=(3, 4, 5, 6)[(pi + rep) % 4]))
+            for t in ts:
+                if t.pool == p and t.n:
+                    out.append(make_batch(f"r{rep}a-{t.tid}", [t], p, rng, norders, n=t.n))
     return out
 
 
@@ -558,7 +658,8 @@ def tlc_programs(run):
     """Order.tla with the table the property states (every site sorted):
     OrderIndependence must hold; exports the program table."""
     res = run_tlc("Order", "Order", coverage=True, timeout=1800)
-    run.add_tlc(res, "Order: every site sorted, OrderIndependence over all permutations of <= 4 elements")
+    run.add_tlc(res, "Order: every site sorted with the total relation; OrderIndependence over all permutations of <= 4 of 5 "
+                     "elements (2 plain, 3 that render alike)")
     progs = res.records("PROGS")
     if not progs:
         raise MachineryError("Order.tla exported no program table")
@@ -579,10 +680,12 @@ def tlc_predict(run, table, label):
     finally:
         shutil.rmtree(d, ignore_errors=True)
     run.add_tlc(res, label)
-    vary = {}
+    vary = {"plain": {}, "alike": {}}
     for v in res.records("VARY"):
-        if v["prog"] not in vary or len(v["ord"]) < len(vary[v["prog"]]["ord"]):
-            vary[v["prog"]] = v
+        # a witness whose collection holds two members that render alike says nothing about plain collections
+        cls = "alike" if sum(1 for e in v["ord"] if ALIKE_BASE < e < 100) >= 2 else "plain"
+        if v["prog"] not in vary[cls] or len(v["ord"]) < len(vary[cls][v["prog"]]["ord"]):
+            vary[cls][v["prog"]] = v
     return vary
 
 
@@ -692,12 +795,15 @@ def run(run):
     varying, unsorted, ntrace = judge(run, obs, owner)
     flagged = set(varying) | set(unsorted)
 
-    # ---- the Site table, derived from what was observed
+    # ---- the Site table, derived from what was observed: a site is raw iff a direct template over plain
+    # members (strings) was flagged; the relation is "render" iff a site that sorts plain members shows the
+    # internal order of members that render alike
     sites = sorted({s for p in progs.values() for s in p["sites"]})
     direct = {}
+    direct_alike = {}
     for t in ts:
         if t.site:
-            direct.setdefault(t.site, []).append(t.tid)
+            (direct_alike if t.pool in ALIKE else direct).setdefault(t.site, []).append(t.tid)
     table = {}
     unobservable = []
     for s in sites:
@@ -706,24 +812,38 @@ def run(run):
         else:
             table[s] = "raw"
             unobservable.append(s)
+    ties_leak_at = sorted(s for s in sites if table[s] == "sorted"
+                          and any(tid in flagged for tid in direct_alike.get(s, [])))
+    table["relation"] = "render" if ties_leak_at else "total"
     predicted = tlc_predict(run, table, "Order: Site table derived from the observations; which programs can vary")
     seen_by_prog = {}
     for t in ts:
-        if t.prog is not None and t.pool == "str":
-            seen_by_prog.setdefault(t.prog, []).append(t.tid in flagged)
+        if t.prog is not None and (t.pool == "str" or t.pool in ALIKE):
+            seen_by_prog.setdefault((t.prog, "alike" if t.pool in ALIKE else "plain"), []).append(t.tid in flagged)
     agree = 0
-    for pid, flags in sorted(seen_by_prog.items()):
-        if (pid in predicted) == any(flags):
+    for (pid, cls), flags in sorted(seen_by_prog.items()):
+        # a collection of alike members also shows whatever plain collections show
+        says = pid in predicted[cls] or (cls == "alike" and pid in predicted["plain"])
+        if says == any(flags):
             agree += 1
         else:
-            run.drift("model-prediction-differs", {"prog": pid, "model_says_can_vary": pid in predicted,
+            run.drift("model-prediction-differs", {"prog": pid, "members": cls, "model_says_can_vary": says,
                                                    "observed_varying": any(flags)})
     # which programs let a raw order through at all (every site raw)
-    allraw = tlc_predict(run, {s: "raw" for s in sites}, "Order: every site raw; which programs let the order through")
+    allraw_t = {s: "raw" for s in sites}
+    allraw_t["relation"] = "total"
+    allraw = tlc_predict(run, allraw_t, "Order: every site raw; which programs let the order through")["plain"]
     masked = sorted(p for p in progs if p not in allraw)
     for s in sites:
         if not any(s in progs[p]["sites"] for p in allraw):
             run.drift("site-never-observable", s)
+    # which programs show the internal order when every site sorts, but by the renderings alone
+    byrender_t = {s: "sorted" for s in sites}
+    byrender_t["relation"] = "render"
+    byrender = tlc_predict(run, byrender_t, "Order: every site sorted by the renderings alone; where do ties leak")
+    if byrender["plain"]:
+        raise MachineryError("Order.tla: a collection without two alike members varies although every site sorts")
+    tie_masked = sorted(p for p in progs if p not in byrender["alike"])
     for tid in cut:
         run.drift("template-cut-off-by-crash-of-an-earlier-one-rerun-alone", tid)
     for p in MIXED:
@@ -736,9 +856,12 @@ def run(run):
                 "observation": obs[k0][(b0.orders[-1][0], seeds[1])][0],
                 "as_ints": to_ints(b0, b0.ts[0], obs[k0][(b0.orders[-1][0], seeds[1])])})
     run.sample({"site_table_observed": table, "assumed_raw_because_not_directly_observable": unobservable})
-    run.sample({"programs_where_a_raw_order_is_masked": masked})
-    if predicted:
-        run.sample({"model_counterexamples_for_observed_table": list(predicted.values())[:4]})
+    run.sample({"programs_where_a_raw_order_is_masked": masked,
+                "programs_where_ties_between_alike_members_are_masked": tie_masked,
+                "sites_where_ties_leak": ties_leak_at})
+    if predicted["plain"] or predicted["alike"]:
+        run.sample({"model_counterexamples_for_observed_table":
+                    (list(predicted["plain"].values()) + list(predicted["alike"].values()))[:4]})
     covered = sorted({t.prog for t in ts if t.prog})
     run.cov["traces_validated_against_impl"] = ntrace
     run.cov["evaluations"] = sum(len(r) for r in obs.values())
@@ -775,6 +898,8 @@ def replay(run, case):
         tokens = {KEYW[r - 1]: r for r in elems}
         tokens.update({VALW[val_of(r) - 101]: val_of(r) for r in elems})
         b = Batch("replay", [t], "str", elems, orders, tokens, True, True)
+    elif t.pool in ALIKE:
+        b = Batch("replay", [t], t.pool, case["elems"], orders, alike_tokens(case["elems"]), True, True)
     else:
         b = make_batch("replay", [t], t.pool, random.Random(0), 2)
         b.orders = orders
